@@ -102,17 +102,17 @@ FEATURES = {
     "xls": ["rows", "sheets", "images", "kwords", "meta"],
     "eml": ["rcpts", "atts", "html", "bare", "noname", "rfc822"],
     "mbox": ["msgs", "rcpts", "atts", "html", "bare", "noname"],
-    "zip": ["members"],
-    "tar": ["members"],
-    "tgz": ["members"],
-    "7z": ["members"],
+    "zip": ["members", "macjunk"],
+    "tar": ["members", "macjunk"],
+    "tgz": ["members", "macjunk"],
+    "7z": ["members", "macjunk"],
 }
 GEN_FORMATS = list(FEATURES)
-FLAGS = ("meta", "html", "nocore", "nometa", "emptymeta", "bare", "noname", "rfc822", "userpw", "incell", "clsnames")     # on/off features (count 1)
+FLAGS = ("meta", "html", "nocore", "nometa", "emptymeta", "bare", "noname", "rfc822", "userpw", "incell", "clsnames", "macjunk")     # on/off features (count 1)
 NOMETA = ("nocore", "nometa", "emptymeta")       # the package has no docProps/core.xml / no meta.xml part (both parts are optional) /
 #                                                  an empty <office:meta/>; they exclude "meta" and each other
 CHOICES = {"enc": 8}                             # feature -> number of variants (the value selects the variant, it is not a count)
-VARIANTS = NOMETA + ("bare", "noname", "rfc822", "enc", "userpw", "incell", "clsnames")    # not part of the rich document: documents of their own
+VARIANTS = NOMETA + ("bare", "noname", "rfc822", "enc", "userpw", "incell", "clsnames", "macjunk")    # not part of the rich document: documents of their own
 # PLACEMENT / ROLE variants - WHERE a counted feature sits and WHICH ROLE a paragraph plays decides which branch of an extractor
 # (and which field of the result) it reaches:
 #   incell    the document's hyperlink paragraphs, pictures (with and without alternative text) and lists are not children of the
@@ -678,6 +678,11 @@ def _build_gen(fmt, n) -> bytes:
         mem = _members(n, b)
         if not mem:
             mem = [("only.txt", (b.t("B") + "\n").encode("ascii"))]
+        if n.get("macjunk"):
+            # macjunk (wave 8): in front of the first member, a `__MACOSX/` twin of it - same base name, other text - which the
+            # library skips by its directory; the other archive documents hold members of the SAME base name in kept directories,
+            # so a skip decision remembered per base name in one extraction shows in the next (fresh-process / warm passes)
+            mem = [("__MACOSX/" + mem[0][0].rsplit("/", 1)[-1], (b.t("B") + "\n").encode("ascii"))] + mem
         if fmt == "zip":
             from verif.gen import zipforge
             return zipforge.zipforge([{"name": nm, "data": d, "method": 8} for nm, d in mem])
